@@ -15,6 +15,23 @@ SCN = ("bounded symbolic execution of the real py34/bacpypes stacks (application
        "bounds is a solver-explored path and every payload octet a z3 variable; counterexamples replayed under plain CPython")
 
 CLAIMED = {
+    "C01": ("6/C01", SX + "; octets compared with an independent clause 20.2 reference encoder",
+            "Every primitive class through constructor - encode - (app_to_context) - Tag.encode - octets - decode in both tagging modes with a "
+            "symbolic context number: integers symbolic over [-2^71, 2^71] (out-of-range values inside the domain: refused or round-tripped, "
+            "never altered), all 2^32 object-identifier words, every enumeration name and every undefined number per encoded length, bit "
+            "strings (every pattern to length 10/14, one-hot to 64), date/time octets, octet strings and character strings with symbolic "
+            "content; the solver decides equality with the canonical reference octets on every path. Real/Double with concrete representative "
+            "values only (bit-exact), IEEE rounding is not claimed.",
+            "Trusted: CrossHair symbolic int/bytes/str models (UTF-8 model excludes surrogates: checked concretely), z3, the reference "
+            "encoder vf/ref/C01_ref.py; strings longer than the bounds and symbolic floats are outside."),
+    "C14": ("6/C14", SX + "; differential against a reference scheduler (sorted list keyed by due time, installation order)",
+            "The real TaskManager / core.run / core.run_once on a virtual clock: every operation sequence up to length 3 (quick) / 4 (thorough) "
+            "plus longer opcode shapes over {install at t, install after delta, suspend, resume, re-install, advance} with symbolic tasks and "
+            "symbolic integer instants 0..8 is compared after every advance with the reference (never early, once per installation, order "
+            "among equal times, not after suspend, re-install moves); recurring tasks with symbolic interval/offset/instants fire once per "
+            "slot; deferred batches with every subset of raising / re-deferring members run each function once in order.",
+            "Trusted: as C07 plus vf/world.py (asyncore.loop -> clock advance, trigger stand-in); instants are integers or eighths of a second "
+            "so real arithmetic equals binary64; IEEE rounding of the recurring-slot formula for non-representable intervals is not claimed."),
     "C04": ("6/C04", SCN,
             "Two complete stacks on a fault-injecting virtual LAN: for every placement of the instance's faults (drop, duplicate, reorder, "
             "delay across timeouts, silence from any frame on) over every frame, with symbolic payload octets, the solver-explored paths "
